@@ -132,8 +132,21 @@ def reloc(index, rep):
     fn = index.func(OC, "OutdoorCrops.assign_increase_from_increased_cultivated_area")
     expanded_area(index, rep, fn, rule)
     cm = index.func(OC, "OutdoorCrops.calculate_monthly_production")
-    guard = [s for s in walk_no_nested(cm) if isinstance(s, ast.If) and norm_src(s.test) == "constants_for_params['RATIO_INCREASED_CROP_AREA'] > 1"
-             and "self.assign_increase_from_increased_cultivated_area(constants_for_params)" in norm_src(s)]
+    from .core import bounds_in
+    calls = [c_ for c_ in walk_no_nested(cm) if isinstance(c_, ast.Call) and dotted(c_.func) == "self.assign_increase_from_increased_cultivated_area"]
+    guard = []
+    for c_ in calls:
+        # every enclosing `if` whose body holds the call: one of them must bound the ratio from below by (at least) 1
+        p_, child = getattr(c_, "_parent", None), c_
+        okc = False
+        while p_ is not None and p_ is not cm:
+            if isinstance(p_, ast.If) and any(child is x for x in p_.body):
+                okc = okc or any(k == "lower" and v >= 1 and norm_src(e_) == "constants_for_params['RATIO_INCREASED_CROP_AREA']"
+                                 for k, e_, v, strict in bounds_in(p_.test))
+            child, p_ = p_, getattr(p_, "_parent", None)
+        if okc:
+            guard.append(c_)
+    guard = guard if len(guard) == len(calls) else []
     rep.check(len(guard) == 1, rule, "expanded area applied only for ratio > 1 (multiplier >= 1)",
               "the expanded-area step can run with a ratio <= 1 (it would lower output)", loc=loc(OC, cm))
     rep.require_min(rule, 3)
